@@ -39,9 +39,9 @@ func buildGraph(c *engine.C, o graphOpts) genGraph {
 			c.Tag("default-package")
 		}
 	}
-	quote, unresolved, external, overload := false, false, false, false
+	quote, unresolved, external, overload := 0, false, false, false
 	if o.Extras {
-		quote = c.Bool("quote-in-name")
+		quote = c.Choose(4, "quote-in-name")
 		unresolved = c.Bool("unresolved-callee")
 		external = c.Bool("external-callee")
 		overload = n >= 2 && c.Bool("overload")
@@ -64,9 +64,11 @@ func buildGraph(c *engine.C, o graphOpts) genGraph {
 			// sources without a package declaration: every type lives in the default package
 			m.Pkg = ""
 		}
-		if quote && i == 1%n {
-			m.Name = "m\"" + fmt.Sprint(i)
-			c.Tag("quote")
+		if quote > 0 && i == 1%n {
+			// a quote; an escaped quote as in the literal receiver "say \"hi\""; two escaped quotes in a row. No name holds
+			// two backslashes in a row: DOT cannot tell a doubled backslash from two, and the reader takes a pair for one
+			m.Name = []string{"", "m\"" + fmt.Sprint(i), "m\\\"" + fmt.Sprint(i), "m" + fmt.Sprint(i) + "\\\"\\\"z"}[quote]
+			c.Tag([]string{"", "quote", "escaped-quote", "two-escaped-quotes"}[quote])
 		}
 		ms[i] = m
 	}
